@@ -23,17 +23,19 @@ import (
 
 // Engine is a handle on one interpreter instance.
 type Engine struct {
-	i         *interpreter
-	Steps     int64
-	StepLimit int64
-	InitAllow func(path string) bool
-	X         *Explorer
-	IntMode   bool
-	Params    []value
-	Funcs     map[*ssa.Function]int64
-	MapOrder  int // 0 = insertion order; 1 = rotations+reversal; 2 = all permutations
-	journal   []jent
-	journalng bool
+	i           *interpreter
+	TraceEvents bool
+	Events      []SyncEvent
+	Steps       int64
+	StepLimit   int64
+	InitAllow   func(path string) bool
+	X           *Explorer
+	IntMode     bool
+	Params      []value
+	Funcs       map[*ssa.Function]int64
+	MapOrder    int // 0 = insertion order; 1 = rotations+reversal; 2 = all permutations
+	journal     []jent
+	journalng   bool
 
 	mapOrderOn  bool
 	mapOrderMax int
@@ -318,15 +320,15 @@ func init() {
 			return out
 		},
 		"(*regexp.Regexp).String":     func(fr *frame, a []value) value { return nativeRegexp(a[0]).String() },
-		"(*sync.RWMutex).Lock":        func(fr *frame, a []value) value { return nil },
-		"(*sync.RWMutex).Unlock":      func(fr *frame, a []value) value { return nil },
-		"(*sync.RWMutex).RLock":       func(fr *frame, a []value) value { return nil },
-		"(*sync.RWMutex).RUnlock":     func(fr *frame, a []value) value { return nil },
+		"(*sync.RWMutex).Lock":        func(fr *frame, a []value) value { theEngine.noteMutex(fr, "lock", a[0]); return nil },
+		"(*sync.RWMutex).Unlock":      func(fr *frame, a []value) value { theEngine.noteMutex(fr, "unlock", a[0]); return nil },
+		"(*sync.RWMutex).RLock":       func(fr *frame, a []value) value { theEngine.noteMutex(fr, "rlock", a[0]); return nil },
+		"(*sync.RWMutex).RUnlock":     func(fr *frame, a []value) value { theEngine.noteMutex(fr, "runlock", a[0]); return nil },
 		"encoding/json.Unmarshal":     func(fr *frame, a []value) value { panic("unsupported: encoding/json (reflection)") },
 		"encoding/json.Marshal":       func(fr *frame, a []value) value { panic("unsupported: encoding/json (reflection)") },
 		"encoding/json.MarshalIndent": func(fr *frame, a []value) value { panic("unsupported: encoding/json (reflection)") },
-		"(*sync.Mutex).Lock":          func(fr *frame, a []value) value { return nil },
-		"(*sync.Mutex).Unlock":        func(fr *frame, a []value) value { return nil },
+		"(*sync.Mutex).Lock":          func(fr *frame, a []value) value { theEngine.noteMutex(fr, "lock", a[0]); return nil },
+		"(*sync.Mutex).Unlock":        func(fr *frame, a []value) value { theEngine.noteMutex(fr, "unlock", a[0]); return nil },
 		"(*sync.Once).Do": func(fr *frame, a []value) value {
 			k := a[0].(*value)
 			if onceDone[k] {
